@@ -224,7 +224,7 @@ func checkUpsertStatements(c *km.Ctx, rule, table string, payload []string, min 
 	n := 0
 	seen := map[string]bool{}
 	for _, fn := range c.P.AllFuncs {
-		if fn.Pkg == nil || fn.Pkg.Pkg.Path() != KMD {
+		if fn.Pkg == nil || !pkgIsKMD(fn.Pkg) {
 			continue
 		}
 		km.Instrs(fn, func(in ssa.Instruction) {
@@ -814,4 +814,15 @@ func globalTableEntries(c *km.Ctx, g *ssa.Global) ([]*ssa.MapUpdate, bool) {
 		})
 	}
 	return out, good && len(out) > 0
+}
+
+// pkgIsKMD: the package is cmd/keymasterd - or a package that is new to the module (absent from the recorded
+// tree), into which part of the daemon may have been moved; scans that range over "the daemon's functions" then
+// still see the moved part.
+func pkgIsKMD(p *ssa.Package) bool {
+	if p == nil {
+		return false
+	}
+	path := p.Pkg.Path()
+	return path == KMD || km.IsNewModulePackage(path)
 }
